@@ -148,6 +148,9 @@ class _P:
                 self.i = j + 1
                 return ("tup", "Ident", [("atom", txt)])
             return ("tup", name, self.seq(")"))
+        if c == "[" and name == "TokenStream":
+            self.i += 1
+            return ("tup", "TokenStream", [("list", self.seq("]"))])
         return ("atom", name)
 
     def seq(self, close):
